@@ -85,6 +85,10 @@ type Config struct {
 	StartTime time.Time
 	// NoInflation sets mint inflation to zero so balances are easier to track.
 	NoInflation bool
+	// AbortedProposalPct > 0: the node runs with optimistic execution enabled and, before that share of the blocks,
+	// processes (and starts executing) a proposal for the same height that is then NOT the decided block; the
+	// aborted execution must leave no trace (mirrors are built without it)
+	AbortedProposalPct int
 	// GovVotingPeriod > 0: x/gov gets this voting period and a 1uband minimum deposit, so that authority
 	// messages can also travel through a real proposal (executed by gov's end blocker, before tss/bandtss)
 	GovVotingPeriod time.Duration
@@ -127,6 +131,8 @@ type World struct {
 	RestartEvery int64
 	Restarts     int
 	CheckTxs     int
+	// AbortedProposals counts proposals that were processed (optimistically executed) and then not decided
+	AbortedProposals int
 }
 
 // DefaultConsensusParams mirrors the repository's testing params.
@@ -179,9 +185,13 @@ func NewWorld(cfg Config) *World {
 	}
 
 	w.DB = cosmosdb.NewMemDB()
+	opts := []func(*baseapp.BaseApp){baseapp.SetChainID(cfg.ChainID)}
+	if cfg.AbortedProposalPct > 0 {
+		opts = append(opts, baseapp.SetOptimisticExecution())
+	}
 	w.App = band.NewBandApp(
 		log.NewNopLogger(), w.DB, nil, true, map[int64]bool{}, w.Dir,
-		sims.EmptyAppOptions{}, 100, baseapp.SetChainID(cfg.ChainID),
+		sims.EmptyAppOptions{}, 100, opts...,
 	)
 	gs := w.buildGenesis()
 	if cfg.Genesis != nil {
@@ -224,6 +234,7 @@ func NewWorld(cfg Config) *World {
 func (w *World) AddMirror() *World {
 	cfg := w.Cfg
 	cfg.HomeDir = ""
+	cfg.AbortedProposalPct = 0 // replicas execute the decided blocks only
 	m := NewWorld(cfg)
 	if string(m.LastAppHash) != string(w.LastAppHash) {
 		w.Diverged = append(w.Diverged, fmt.Sprintf("replica differs right after genesis: %X vs %X", w.LastAppHash, m.LastAppHash))
@@ -641,6 +652,18 @@ func (w *World) Exec(req *abci.RequestFinalizeBlock) (resp *abci.ResponseFinaliz
 }
 
 func (w *World) execOne(req *abci.RequestFinalizeBlock) (resp *abci.ResponseFinalizeBlock, err error) {
+	if w.Cfg.AbortedProposalPct > 0 && req.Height > 2 && w.Rng.Derive(fmt.Sprintf("oe-%d", req.Height)).Chance(w.Cfg.AbortedProposalPct, 100) {
+		// another proposal for this height (other hash, no txs, a second later) is processed first and abandoned
+		func() {
+			defer func() { recover() }()
+			other := NewRng(w.Cfg.Seed ^ uint64(req.Height)*0x51ED).Derive("other-proposal")
+			pr, e := w.App.ProcessProposal(&abci.RequestProcessProposal{Height: req.Height, Time: req.Time.Add(time.Second), Hash: other.Bytes(32),
+				ProposerAddress: req.ProposerAddress, ProposedLastCommit: req.DecidedLastCommit, NextValidatorsHash: other.Bytes(32)})
+			if e == nil && pr != nil && pr.Status == abci.ResponseProcessProposal_ACCEPT {
+				w.AbortedProposals++
+			}
+		}()
+	}
 	func() {
 		defer func() {
 			if r := recover(); r != nil {
